@@ -23,6 +23,7 @@
 // std::out_of_range = -2, any other exception = -3.
 #include <tlx/container/string_view.hpp>
 
+#include <csignal>
 #include <cstdint>
 #include <cstdio>
 #include <cstdlib>
@@ -49,6 +50,12 @@ struct Vals {
     void sign(int c) { push(c < 0 ? -1 : c > 0 ? 1 : 0); }
     void ch(char c) { push(static_cast<unsigned char>(c)); }
     template <class V> void str(const V& s) { push(static_cast<long>(s.size())); for (size_t i = 0; i < s.size(); ++i) ch(s.data()[i]); }
+    // a returned / modified view: its size(), the offset of its data() from `base`, then its bytes (at most 40 are
+    // read, so that an absurd size is reported as a wrong size, not as a crash of the harness)
+    template <class V> void view(const V& s, const char* base) {
+        size_t_(s.size()); push(static_cast<long>(s.data() - base));
+        for (size_t i = 0; i < s.size() && i < 40; ++i) ch(s.data()[i]);
+    }
     bool operator==(const Vals& o) const { return n == o.n && std::memcmp(v, o.v, sizeof(long) * n) == 0; }
 };
 
@@ -74,7 +81,10 @@ static void describe_cur(char* buf, size_t len) {
                      g_cur.s ? g_cur.s->c_str() : "?", g_cur.idx, g_cur.name ? g_cur.name : "?");
     for (int i = 0; i < g_cur.na && k < (int)len; ++i) k += snprintf(buf + k, len - k, "%c%ld", i ? ',' : ' ', g_cur.a[i]);
 }
+static bool g_reported_any = false;
 static void crash_report(const char* why) {
+    if (g_reported_any) return;
+    g_reported_any = true;
     char buf[512];
     describe_cur(buf, sizeof buf);
     fflush(stdout);
@@ -82,7 +92,16 @@ static void crash_report(const char* why) {
     fflush(stdout);
 }
 static void on_terminate() { crash_report("std::terminate"); _exit(3); }
-extern "C" void __asan_on_error() { crash_report("sanitizer"); }
+// called by the sanitizer runtime whenever it is about to kill the process (ASan reports as well as UBSan's
+// -fno-sanitize-recover checks, which do not pass through __asan_on_error)
+static void on_sanitizer_death() { crash_report("sanitizer"); }
+extern "C" void __sanitizer_set_death_callback(void (*callback)(void));
+// g++ links libasan and libubsan with separate runtimes, and the death callback only reaches libasan's: make both
+// runtimes abort() and name the current call from the SIGABRT handler (also covers assert / plain abort)
+extern "C" const char* __asan_default_options() { return "abort_on_error=1:detect_leaks=1"; }
+extern "C" const char* __ubsan_default_options() { return "abort_on_error=1:print_stacktrace=1"; }
+static bool g_reported = false;
+static void on_abort(int) { if (!g_reported) crash_report("sanitizer/abort"); _exit(3); }
 
 // ---------------------------------------------------------------- one block
 struct Block {
@@ -172,7 +191,15 @@ static std::vector<size_t> positions(size_t len) {
     return p;
 }
 static std::vector<size_t> few_positions(size_t len) { return {0, 1, len, NPOS}; }
-static long L(size_t x) { return x == NPOS ? -1 : static_cast<long>(x); }
+// count arguments: 0..len+2 and npos-d for d = len+3..0 (pos + n wraps around for d <= pos)
+static std::vector<size_t> counts(size_t len) {
+    std::vector<size_t> p;
+    for (size_t i = 0; i <= len + 2; ++i) p.push_back(i);
+    for (size_t d = len + 4; d-- > 0;) p.push_back(NPOS - d);
+    return p;
+}
+static std::vector<size_t> few_counts(size_t len) { return {0, 1, len, NPOS - 3, NPOS - 2, NPOS - 1, NPOS}; }
+static long L(size_t x) { return static_cast<long>(x); }    // npos-d prints as -(d+1)
 
 static const char ALPHA5[5] = {'\x00', 'a', 'b', '\x80', '\xFF'};
 // positions / counts far beyond any size: would expose a truncation to 32 bits / int, or pos + n wrap-around
@@ -182,6 +209,7 @@ static const size_t HUGE3[3] = {1ull << 32, (1ull << 32) + 1, NPOS - 1};
 static void run_hay(Block& b) {
     const std::string& h = b.h;
     const std::vector<size_t> P = positions(h.size());
+    const std::vector<size_t> N = counts(h.size());
     const char* base = b.T.data();
     b.call("size", {}, [](Vals& o, auto v, auto) { o.size_t_(v.size()); o.size_t_(v.length()); o.boolean(v.empty()); });
     for (size_t pos : P)
@@ -193,13 +221,13 @@ static void run_hay(Block& b) {
         b.call("back", {}, [](Vals& o, auto v, auto) { o.ch(v.back()); });
     }
     for (size_t n = 0; n <= h.size(); ++n) {   // std: precondition n <= size()
-        b.call("remove_prefix", {L(n)}, [=](Vals& o, auto v, auto) { v.remove_prefix(n); o.str(v); o.push(static_cast<long>(v.data() - base)); });
-        b.call("remove_suffix", {L(n)}, [=](Vals& o, auto v, auto) { v.remove_suffix(n); o.str(v); });
+        b.call("remove_prefix", {L(n)}, [=](Vals& o, auto v, auto) { v.remove_prefix(n); o.view(v, base); });
+        b.call("remove_suffix", {L(n)}, [=](Vals& o, auto v, auto) { v.remove_suffix(n); o.view(v, base); });
     }
     b.call2("to_string", {}, [](Vals& o, TV v, TV) { o.str(v.to_string()); }, [](Vals& o, SV v, SV) { o.str(std::string(v)); });
     b.call("string_conv", {}, [](Vals& o, auto v, auto) { std::string s(v); o.str(s); });
-    for (size_t pos : P) for (size_t n : P)
-        b.call("substr", {L(pos), L(n)}, [=](Vals& o, auto v, auto) { auto r = v.substr(pos, n); o.str(r); });
+    for (size_t pos : P) for (size_t n : N)
+        b.call("substr", {L(pos), L(n)}, [=](Vals& o, auto v, auto) { auto r = v.substr(pos, n); o.view(r, v.data()); });
     auto do_copy = [&b](size_t n, size_t pos) {
         b.call("copy", {L(n), L(pos)}, [=](Vals& o, auto v, auto) {
             char buf[64]; size_t bl = v.size() + 3; std::memset(buf, '.', sizeof buf);
@@ -208,7 +236,7 @@ static void run_hay(Block& b) {
             catch (const std::out_of_range&) { o.push(-2); o.str(whole); }
         });
     };
-    for (size_t pos : P) for (size_t n : P) do_copy(n, pos);
+    for (size_t pos : P) for (size_t n : N) do_copy(n, pos);
     for (char c : ALPHA5) {
         long lc = static_cast<unsigned char>(c);
         b.call("starts_with_char", {lc}, [=](Vals& o, auto v, auto) { o.boolean(v.starts_with(c)); });
@@ -224,9 +252,11 @@ static void run_hay(Block& b) {
     }
     for (size_t g : HUGE3) {
         b.call("at", {L(g)}, [=](Vals& o, auto v, auto) { o.ch(v.at(g)); });
-        b.call("substr", {L(g), 1}, [=](Vals& o, auto v, auto) { auto r = v.substr(g, 1); o.str(r); });
-        b.call("substr", {0, L(g)}, [=](Vals& o, auto v, auto) { auto r = v.substr(0, g); o.str(r); });
-        do_copy(g, 0);
+        b.call("substr", {L(g), 1}, [=](Vals& o, auto v, auto) { auto r = v.substr(g, 1); o.view(r, v.data()); });
+        for (size_t pos = 0; pos <= h.size(); ++pos) {
+            b.call("substr", {L(pos), L(g)}, [=](Vals& o, auto v, auto) { auto r = v.substr(pos, g); o.view(r, v.data()); });
+            do_copy(g, pos);
+        }
         do_copy(1, g);
         b.call("find_char", {'a', L(g)}, [=](Vals& o, auto v, auto) { o.size_t_(v.find('a', g)); });
         b.call("rfind_char", {'a', L(g)}, [=](Vals& o, auto v, auto) { o.size_t_(v.rfind('a', g)); });
@@ -256,6 +286,9 @@ static void block_pair(const std::string& h, const std::string& s, bool verbose,
     if (null_s) b.null_s();
     const std::vector<size_t> P = positions(h.size());
     const std::vector<size_t> F = few_positions(h.size());
+    // count family of compare(pos1, n1, x): the full one (npos-d for every d) for needles of length <= 1 -- the clamping
+    // does not depend on the needle --, the short one otherwise
+    const std::vector<size_t> N1 = s.size() <= 1 ? counts(h.size()) : P;
     const std::string str = s;            // for the std::string overloads
     const char* cs = s.c_str();           // NUL-terminated: for the const char* overloads
     const size_t sn = s.size();
@@ -296,11 +329,21 @@ static void block_pair(const std::string& h, const std::string& s, bool verbose,
         b.call("find_first_not_of_cstr", {L(pos)}, [=](Vals& o, auto v, auto) { o.size_t_(v.find_first_not_of(cs, pos)); });
         b.call("find_last_not_of_cstr", {L(pos)}, [=](Vals& o, auto v, auto) { o.size_t_(v.find_last_not_of(cs, pos)); });
     }
-    for (size_t pos1 : P) for (size_t n1 : P) {
+    for (size_t pos1 : P) for (size_t n1 : N1) {
         if (pos1 > h.size() && n1 != 0 && n1 != NPOS) continue;   // throwing calls: count is irrelevant, keep two
         b.call("compare3", {L(pos1), L(n1)}, [=](Vals& o, auto v, auto x) { o.sign(v.compare(pos1, n1, x)); });
     }
-    for (size_t pos1 : F) for (size_t n1 : F) {
+    for (size_t n = 0; n < sn; ++n) for (size_t pos : {size_t(0), NPOS}) {      // (ptr, pos, n) with n < |s|: a prefix of the needle
+        b.call("find_ptr_n", {L(pos), L(n)}, [=](Vals& o, auto v, auto) { o.size_t_(v.find(cs, pos, n)); });
+        b.call("rfind_ptr_n", {L(pos), L(n)}, [=](Vals& o, auto v, auto) { o.size_t_(v.rfind(cs, pos, n)); });
+        b.call("find_first_of_ptr_n", {L(pos), L(n)}, [=](Vals& o, auto v, auto) { o.size_t_(v.find_first_of(cs, pos, n)); });
+        b.call("find_last_of_ptr_n", {L(pos), L(n)}, [=](Vals& o, auto v, auto) { o.size_t_(v.find_last_of(cs, pos, n)); });
+        b.call("find_first_not_of_ptr_n", {L(pos), L(n)}, [=](Vals& o, auto v, auto) { o.size_t_(v.find_first_not_of(cs, pos, n)); });
+        b.call("find_last_not_of_ptr_n", {L(pos), L(n)}, [=](Vals& o, auto v, auto) { o.size_t_(v.find_last_not_of(cs, pos, n)); });
+        b.call("compare3_ptr_n", {0, -1, L(n)}, [=](Vals& o, auto v, auto) { o.sign(v.compare(0, NPOS, cs, n)); });
+    }
+    const std::vector<size_t> FC = few_counts(h.size());
+    for (size_t pos1 : F) for (size_t n1 : FC) {
         b.call("compare3_cstr", {L(pos1), L(n1)}, [=](Vals& o, auto v, auto) { o.sign(v.compare(pos1, n1, cs)); });
         b.call("compare3_ptr_n", {L(pos1), L(n1)}, [=](Vals& o, auto v, auto) { o.sign(v.compare(pos1, n1, cs, sn)); });
     }
@@ -350,7 +393,7 @@ static void block_alias(const std::string& buf, size_t o1, size_t l1, size_t o2,
         b.call("find_cstr", {L(pos)}, [=](Vals& o, auto v, auto) { o.size_t_(v.find(cs, pos)); });
         b.call("rfind_cstr", {L(pos)}, [=](Vals& o, auto v, auto) { o.size_t_(v.rfind(cs, pos)); });
     }
-    for (size_t pos1 : F) for (size_t n1 : F)
+    for (size_t pos1 : F) for (size_t n1 : few_counts(h.size()))
         b.call("compare3", {L(pos1), L(n1)}, [=](Vals& o, auto v, auto x) { o.sign(v.compare(pos1, n1, x)); });
     static const size_t TWO_POS[2] = {0, 1}, TWO_N[2] = {1, NPOS};
     for (size_t pos1 : TWO_POS) for (size_t n1 : TWO_N) for (size_t pos2 : TWO_POS) for (size_t n2 : TWO_N)
@@ -367,7 +410,8 @@ static void block_alias(const std::string& buf, size_t o1, size_t l1, size_t o2,
 static void block_cmp5(const std::string& h, const std::string& s, bool verbose) {
     Block b('C', h, s, verbose);
     const std::vector<size_t> P = positions(h.size()), Q = positions(s.size());
-    for (size_t pos1 : P) for (size_t n1 : P) for (size_t pos2 : Q) for (size_t n2 : Q) {
+    const std::vector<size_t> N1 = counts(h.size()), N2 = counts(s.size());
+    for (size_t pos1 : P) for (size_t n1 : N1) for (size_t pos2 : Q) for (size_t n2 : N2) {
         if (pos1 > h.size() && n1 != 0 && n1 != NPOS) continue;   // throwing calls: keep two counts per position
         if (pos2 > s.size() && n2 != 0 && n2 != NPOS) continue;
         b.call("compare5", {L(pos1), L(n1), L(pos2), L(n2)},
@@ -393,6 +437,8 @@ static std::vector<std::string> all_strings(const std::string& alpha, size_t max
 int main(int argc, char** argv) {
     if (argc < 2) { fprintf(stderr, "usage: %s casefile\n", argv[0]); return 2; }
     std::set_terminate(on_terminate);
+    __sanitizer_set_death_callback(on_sanitizer_death);
+    std::signal(SIGABRT, on_abort);
     FILE* f = fopen(argv[1], "r");
     if (!f) { perror("casefile"); return 2; }
     char line[4096];
